@@ -54,9 +54,10 @@ impl std::fmt::Display for FeelZone {
       FeelZone::Local => write!(f, ""),
       FeelZone::Offset(offset) => {
         let sign = if *offset < 0 { '-' } else { '+' };
-        let hours = offset.abs() / 3_600;
-        let minutes = offset.abs().rem(3_600).div(60);
-        let seconds = offset.abs().rem(3_600).rem(60);
+        let magnitude = offset.unsigned_abs();
+        let hours = magnitude / 3_600;
+        let minutes = magnitude.rem(3_600).div(60);
+        let seconds = magnitude.rem(3_600).rem(60);
         if seconds > 0 {
           write!(f, "{}{:02}:{:02}:{:02}", sign, hours, minutes, seconds)
         } else {
